@@ -110,7 +110,7 @@ class Own:
     def __init__(self, cx: Cx, fn: FunctionInfo, conv_params: list[str]) -> None:
         self.cx = cx
         self.fn = fn
-        self.s: Summary = cx.summary(fn)
+        self.s: Summary = cx.summary(fn, full=True)  # effects hold for every call, new keywords included
         self.prov = Prov(self.s)
         self.conv = set(conv_params)
         self.memo: dict = {}
